@@ -7,6 +7,7 @@ Driver of the lifecycle model (C07 / C04-fs).  One command per line, one output 
   spawn <n> owner <ntags> <drop 0|1>     process <n> (pid 0): creates the node, creates <ntags> tags, drops it if <drop>
   spawn <n> monitor <pid>                Node::list for the node
   spawn <n> cleaner <pid> [<pc>]         Node::list + remove_stale_resources (pc 11: starts at ProcessCleaner::new)
+  spawn <n> cleaner <pid> svcfails       the same; removing the node from a service fails (cleanup_failure path)
   trace <n>                              step names of <n> running alone to its end (state unchanged)
   step <n> [<k>]                         <n> takes k (default 1) steps: their names
   run <n>                                <n> runs to its end: step names
@@ -65,6 +66,7 @@ def stepLine (s : St) (t : List String) : St × String :=
   | ["spawn", n, "owner", k, d] => ({ s with th := setTh s.th n (mkOwner (nat! k) (d == "1")) }, "ok")
   | ["spawn", n, "monitor", p] => ({ s with th := setTh s.th n (mkMonitor (nat! p)) }, "ok")
   | ["spawn", n, "cleaner", p] => ({ s with th := setTh s.th n (mkCleaner (nat! p)) }, "ok")
+  | ["spawn", n, "cleaner", p, "svcfails"] => ({ s with th := setTh s.th n { mkCleaner (nat! p) with svcFails := true } }, "ok")
   | ["spawn", n, "cleaner", p, pc] => ({ s with th := setTh s.th n { mkCleaner (nat! p) with pc := nat! pc } }, "ok")
   | ["trace", n] =>
     match s.th.lookup n with
